@@ -44,7 +44,8 @@ Mechs == <<
   [m |-> "oauth2_introspection_md", policy |-> <<"assertions">>,
    inputs |-> <<"credential">>,
    shifts |-> <<>>, hdr |-> FALSE, val |-> FALSE, hdrdef |-> 2],
-  [m |-> "jwt_jwk", policy |-> <<>>,
+  (* jwk_validation: whether and against which trust store the key's certificate is validated *)
+  [m |-> "jwt_jwk", policy |-> <<"jwk_validation">>,
    inputs |-> <<"ep_headers", "issuer", "kid">>,
    shifts |-> <<"issuer|kid">>, hdr |-> TRUE, val |-> FALSE, hdrdef |-> 1],
   [m |-> "jwt_finalizer", policy |-> <<>>,
